@@ -1236,4 +1236,16 @@ pub(crate) const MAX_PUBKEY_SIZE: usize = 97;""")]),
                     };
                     let parsed = parse()?;
                     enforce_equal_len(Self::OutputSize::to_usize(), encoded.len())?;""")]),
+    dict(name='c04-from-fn-encoder-little-endian', expect=[('C04', 'R02.3'), ('C02', 'R02.3')], patch=BP + 'B13-2.diff',
+         note='const-generic array::from_fn form of the integer encoders with shift 8*i: little-endian counter and suite ids',
+         edits=[(UTIL, "core::array::from_fn(|i| (n >> (8 * (N - 1 - i))) as u8)", "core::array::from_fn(|i| (n >> (8 * i)) as u8)")]),
+    dict(name='c04-from-fn-encoder-low-bytes-only', expect=[('C04', 'R02.3')], patch=BP + 'B13-2.diff',
+         note='from_fn form whose shift is taken modulo 32: the four high bytes of the counter repeat the low ones',
+         edits=[(UTIL, "core::array::from_fn(|i| (n >> (8 * (N - 1 - i))) as u8)", "core::array::from_fn(|i| (n >> ((8 * (N - 1 - i)) % 32)) as u8)")]),
+    dict(name='c07-duplicate-kdf-id', expect=[('C07', 'R07.7')],
+         note='HKDF-SHA384 announces KDF_ID 0x0003 (HKDF-SHA512\'s): two suites that differ in the KDF share a suite id',
+         edits=[('src/kdf.rs', "    const KDF_ID: u16 = 0x0002;", "    const KDF_ID: u16 = 0x0003;")]),
+    dict(name='c03-p384-kem-id-of-p256', expect=[('C03', 'R03.8'), ('C07', 'R07.7')],
+         note='DHKEM(P-384) announces kem_id 0x0010 (P-256\'s): every P-384 shared secret is labelled with the wrong suite id',
+         edits=[('src/kem/dhkem.rs', "    0x0011,\n", "    0x0010,\n")]),
 ]
